@@ -59,7 +59,8 @@ class V(object):
 
 
 UNK = V('unk')
-_DISPLAY = dict()     # identity -> a name it had (messages only)
+from ..core.resolve import register_cache  # noqa: E402
+_DISPLAY = register_cache(dict())  # identity -> a name (messages only)
 NONE = V('none')
 
 
